@@ -20,6 +20,7 @@ func genC15(rt *rapid.T) *FmtCase {
 	}
 	missing := false
 	many := n > 100
+	var repeatOperand *Val
 	for i := 0; i < n; i++ {
 		if rapid.IntRange(0, 2).Draw(rt, "haslit") > 0 {
 			c.Segs = append(c.Segs, Seg{Lit: fc.genLit(rt)})
@@ -46,8 +47,16 @@ func genC15(rt *rapid.T) *FmtCase {
 			missing = true
 			continue
 		}
-		if isW {
-			c.Args = append(c.Args, genWOperand(rt, vc))
+		if isW && many && i > 0 && repeatOperand != nil {
+			// (a very long format is usually repetitive: the same kind of operand
+			// at every later %w)
+			c.Args = append(c.Args, repeatOperand)
+		} else if isW {
+			op := genWOperand(rt, vc)
+			c.Args = append(c.Args, op)
+			if many && i == 1 && rapid.Bool().Draw(rt, "repeat") {
+				repeatOperand = op
+			}
 		} else {
 			c.Args = append(c.Args, vc.genVal(rt, 0, false))
 		}
